@@ -1254,6 +1254,14 @@ def gen_serial(seed, tier, focus="C13"):
     for j in range(ch.weighted("faults", "nf", [(0, 4), (1, 2), (2, 1)])):
         faults.append([ch.pick("faults", ("kind", j), ["error", "stall", "disconnect_before"]), ch.randrange("faults", ("srv", j), cfg["nservers"]),
                        ch.pick("faults", ("meth", j), ["slot_testv_and_readv_and_writev", "slot_readv"]), ch.randint("faults", ("nth", j), 2, 8), 5.0])
+    if not cfg["dir"] and ch.chance("faults", "after-map", 0.2):
+        # shares larger than the 4000 bytes a map update caches, and most servers failing their first read after
+        # the map query (once): the first retrieve attempt of a download fails although the file is recoverable, so
+        # the operation takes its retry path while later operations are queued behind it
+        cfg["knobs"]["mseg"] = 4096
+        ops[0] = ["create", ch.pick(W, "big-csize", [9000, 13000]), ops[0][2]]
+        faults = [["error", srv, "slot_readv", ch.pick("faults", ("after-map-nth", srv), [2, 2, 3]), 1.0]
+                  for srv in ch.sample("faults", "after-map-srvs", range(cfg["nservers"]), max(1, cfg["nservers"] - ch.randint("faults", "after-map-keep", 0, 2)))]
     return {"engine": "mutsim", "profile": "serial", "focus": "C13", "seed": seed, "cfg": cfg, "ops": ops, "faults": faults}
 
 
@@ -1409,6 +1417,7 @@ def exec_serial(case):
                     d = nd.set_children({name: (lit(pat), lit(pat)), u"extra": (lit(pat + 1), lit(pat + 1))})
                 else:
                     d = nd.list()
+                    name = None
             box = {}
             d.addCallbacks(lambda r, box=box: box.setdefault("r", ("ok", r)), lambda f, box=box: box.setdefault("r", ("err", f)))
             results.append((i, kind, fail, box, name))
@@ -1460,6 +1469,26 @@ def exec_serial(case):
                 break
         probe("serialized-intervals", len(mine))
         if isdir:
+            # every listing sees exactly the edits requested before it (operations run one at a time in request order);
+            # an edit that failed may or may not have been applied
+            poss_ = {}
+            for (i, kind, fail, box, name) in results:
+                ok_ = box.get("r", ("?",))[0] == "ok"
+                if kind == "list":
+                    if ok_:
+                        got_names = set(box["r"][1])
+                        for nm in sorted(set(poss_) | (got_names - {u"never-there"})):
+                            states = poss_.get(nm, {False})
+                            if (nm in got_names) not in states:
+                                bad("list-out-of-order", "list() requested as operation %d shows child %r %s, but the edits requested before it leave it %s "
+                                    "(a read must wait for the operations requested before it and must not run ahead of them)" % (
+                                        i, nm, "present" if nm in got_names else "absent", "present" if True in states else "absent"))
+                                break
+                        probe("dir-list-in-order-checked")
+                    continue
+                for nm in {"set": [name], "set_children": [name, u"extra"], "delete": [name]}.get(kind, []):
+                    new_ = (kind != "delete")
+                    poss_[nm] = {new_} if ok_ else (poss_.get(nm, {False}) | {new_})
             # reference model: apply the operations in request order; a failed edit may or may not have been applied
             st, listing = run(g.add_client(k=k, happy=1, n=n, fmt=cfg["fmt"]).create_node_from_uri(cap).list(), 400_000)
             if st == "ok":
@@ -1486,7 +1515,10 @@ def exec_serial(case):
             st, final = run(c.create_node_from_uri(cap).download_best_version(), 300_000)
             if st == "ok":
                 # (a failed overwrite may still have replaced the contents, so every *requested* replacement counts)
-                last_replace = max([i for (i, kind, fail, box, name) in results if kind in ("overwrite", "upload")] + [-1])
+                # (an 'upload' is requested in two steps -- the servermap now, the upload itself when the servermap has arrived,
+                # i.e. after everything that was requested back-to-back -- so it replaces the results of all of them)
+                last_replace = max([i for (i, kind, fail, box, name) in results if kind == "overwrite"]
+                                   + [len(results) for (i, kind, fail, box, name) in results if kind == "upload"] + [-1])
                 for (i, token) in tokens:
                     box = [b for (j, kd, fl, b, nm) in results if j == i][0]
                     if box.get("r", ("?",))[0] == "ok" and i > last_replace and token not in final:
